@@ -77,9 +77,8 @@ func (c *CppCommentState) NextToken(
 		str := c.GetSingleLineComment(scanner)
 		return tokenizers.NewToken(tokenizers.Comment, "//"+str, line, column)
 	} else {
-		if !utilities.CharValidator.IsEof(secondSymbol) {
-			scanner.Unread()
-		}
+		// Unread the second symbol (the end-of-input slot included).
+		scanner.Unread()
 		if !utilities.CharValidator.IsEof(firstSymbol) {
 			scanner.Unread()
 		}
